@@ -165,8 +165,10 @@ def run(chk):
                 for nme in ("up", "uv"):
                     if opt(t, nme):
                         req[nme] = flow.lab_true(labs)
-                if t[0] == "field" and t[2] in ("presence", "verification") and t[1][0] == "payload" and is_await(t[1][1], UVM_CHECK):
+                if t[0] == "field" and t[2] in ("presence", "verification") and flow.is_payload_of(t[1], lambda x: is_await(x, UVM_CHECK)):
                     rep[t[2]] = flow.lab_true(labs)
+                if t[0] == "unop" and t[1] == "Not" and t[2][0] == "field" and t[2][2] in ("presence", "verification") and flow.is_payload_of(t[2][1], lambda x: is_await(x, UVM_CHECK)):
+                    rep[t[2][2]] = flow.lab_false(labs)
                 if t[0] == "call" and names.is_(t[1], "PartialEq::ne") and find_sub(t, lambda x: isinstance(x, tuple) and x and x[0] == "call" and names.is_(x[1], "UserValidationMethod::is_verification_enabled")):
                     # ne(is_verification_enabled(), Some(true)) false  <=> enabled == Some(true)
                     some_true = find_sub(t, lambda x: isinstance(x, tuple) and x and x[0] == "agg" and x[2] == "Some" and dict(x[3]).get("0") == ("const", 1))
@@ -178,8 +180,10 @@ def run(chk):
                 if aw is not None:
                     uvm_called = True
                     uvm_term = aw
-                    if t[0] == "discr" and t[1][0] == "try":
-                        uvm_ok = labs == ("in", "0")
+                    if flow.asserts_ok(t, labs, lambda x: is_await(x, UVM_CHECK)):
+                        uvm_ok = True
+                    elif flow.asserts_fail(t, labs, lambda x: is_await(x, UVM_CHECK)):
+                        uvm_ok = False
             desc = "req(up=%s,uv=%s) enabled=%s uvm(called=%s ok=%s) reported(p=%s,v=%s) -> %s" % (req["up"], req["uv"], enabled, uvm_called, uvm_ok, rep["presence"], rep["verification"], o.vstr())
             if o.variant[:1] == ("Ok",):
                 n_ok += 1
